@@ -21,7 +21,7 @@ Z3_BIN = os.path.join(os.path.dirname(sys.executable), "z3")
 if not os.path.exists(Z3_BIN):
     Z3_BIN = "/usr/local/bin/z3-new"
 CVC5 = "/usr/bin/cvc5"
-TIMEOUT_S = float(os.environ.get("VERIF_TIMEOUT_S", "60"))
+TIMEOUT_S = float(os.environ.get("VERIF_TIMEOUT_S", "30"))
 RLIMIT_QUICK = 0
 
 
